@@ -543,6 +543,19 @@ func runLive(rc *sk.RunCtx, focus string) {
 			}
 			nd := live[tp.Choose(len(live))]
 			other := w.nodes[tp.Choose(len(w.nodes))]
+			if len(w.blocked) > 0 && tp.Chance(1, 2) {
+				// prefer a peer without a direct path: the traffic (and whatever is done to the tunnel) goes through the relay
+				for _, cand := range w.nodes {
+					a, b := nd.idx, cand.idx
+					if a > b {
+						a, b = b, a
+					}
+					if cand != nd && w.blocked[[2]int{a, b}] {
+						other = cand
+						break
+					}
+				}
+			}
 			ctl := nd.ctl
 			var kind int
 			if focus == "stop" {
